@@ -622,8 +622,26 @@ class Rewriter:
 
     def vecops_rules(self, b):
         c = self.cfg
+        if c.get('must_forget_self'):
+            # R37: a by-value `self` that is neither forgotten nor moved is dropped by Rust when the function returns; for the into_bump_*
+            # conversions that Drop would release the buffer the result points into -- made explicit as a call whose `requires` is false
+            if not re.search(r'\bmem::forget\(self\)|\bManuallyDrop::new\(self\)|\bvec_forget\(self\b', b):
+                k = b.index('{')
+                b = b[:k + 1] + '\n        self_dropped_at_scope_end(); /* R37: implicit Drop of the by-value `self` */' + b[k + 1:]
+                self.fired('R37:implicit-drop-of-self')
         if c.get('slice_folds'):
             b = self.slice_iter_folds(b)
+        if c.get('addr_arith'):
+            # R36: IntoIter bookkeeping on ADDRESSES: `p as usize` is the address; core's wrapping subtractions are shims that give the
+            # exact difference when it is representable; `self.len()` is ExactSizeIterator's default (lower bound of size_hint)
+            b = self.sub('R36:addr', r'(?<![\w])\(self\.(\w+) as usize\)', r'p_addr(self.\1)', b)
+            b = self.sub('R36:addr', r'\bself\.(\w+) as usize\b', r'p_addr(self.\1)', b)
+            b = self.sub('R36:wrapping-sub', r'\b(p_addr\(self\.\w+\))\.wrapping_sub\(', r'usize_wrapping_sub(\1, ', b)
+            b = self.sub('R36:wrapping-sub', r'\bisize::wrapping_sub\((\w+) as _, (\w+) as _\)', r'isize_wrapping_sub(p_addr(\1) as isize, p_addr(\2) as isize)', b)
+            b = self.sub('R36:max_value', r'\bisize::max_value\(\)', 'isize::MAX', b)
+            b = self.sub('R36:exact-len', r'\bself\.len\(\)', 'self.len(hs)', b)
+            b = self.sub('R36:thread-heap', r'(?<![\w.])offset_from\(', 'offset_from(hs, ', b)
+            b = self.sub('R36:raw-parts', r'(?<![\w.:])slice::from_raw_parts(?:_mut)?\(', 'slice_from_raw_parts(hs, ', b)
         # casts between pointer types are the identity on (buffer, index) pairs
         b = self.sub('R22:slice-len', r'\(\*other\)\.len\(\)', 'other.len()', b)
         b = self.sub('R22:raw-slice-ptr', r'\bother as \*const T\b', 'other.as_ptr()', b)
@@ -824,6 +842,15 @@ class Rewriter:
                      r'{ let enc__ = encode_utf8_bytes(hs, ch); \1(enc__) }', b)
         b = self.sub('R25:encode-scratch', r'(?m)^\s*let mut bits = \[0; 4\];\s*$', '', b)
         b = self.sub('R25:encode', r'\bch\.encode_utf8\(&mut bits\)\.as_bytes\(\)', 'encode_utf8_bytes(hs, ch)', b)
+        # std's str constructors over the byte vector; `mem::transmute` of a `&str` to another lifetime is the identity
+        b = self.sub('R25:str-from-utf8', r'(?<![\w:])str::from_utf8_unchecked\(&self\.vec\)', 'str_from_utf8_unchecked(hs, &self.vec)', b)
+        b = self.sub('R25:str-from-utf8', r'(?<![\w:])str::from_utf8\(&vec\)', 'str_from_utf8(hs, &vec)', b)
+        b = self.sub('R25:as-str', r'\bself\.as_str\(\)', 'self.deref(hs)', b)
+        b = self.sub('R25:transmute-lifetime', r'\bmem::transmute\(s\)', 's', b)
+        b = self.sub('R25:forget', r'\bmem::forget\(self\)', 'vec_forget(self.vec)', b)
+        b = self.sub('R25:ok-pattern', r'\bOk\(\.\.\) =>', 'Ok(_) =>', b)
+        for name in ['push_str', 'push']:
+            b = self.map_calls(b, r'\bself\.%s' % name, lambda m_, a, name=name: None if (a and a[0] == 'hs') else 'self.%s(%s)' % (name, ', '.join(['hs'] + a)), 'R12:thread-heap')
         # model types / constructors
         b = self.sub('R25:model-type', r'(?<![\w:])String::with_capacity_in\(', 'StringM::with_capacity_in(hs, ', b)
         b = self.sub('R25:model-type', r'(?<![\w:])String::from_utf8_unchecked\(', 'StringM::from_utf8_unchecked(Ghost(*hs), ', b)
